@@ -127,6 +127,33 @@ def panic_sites(b):
     return res
 
 
+def _len_of(t):
+    """the collection whose length t is (`x.len()`, or the slice metadata MIR reads for an index check), else None"""
+    t = peel(t)
+    if is_call(t, ["slice::len", "Vec::len", "str::len", "String::len"]) and t[2]:
+        return peel(t[2][0], transparent=["Deref::deref", "Vec::as_slice", "str::as_bytes", "String::as_bytes"])
+    if isinstance(t, tuple) and len(t) == 3 and t[0] == "unop" and t[1] == "PtrMetadata":
+        return peel(t[2], transparent=["Deref::deref", "Vec::as_slice", "str::as_bytes", "String::as_bytes"])
+    return None
+
+
+def _guarded_by_index_test(b, site_bb, idx, coll):
+    """The block lies behind the true edge of `idx < coll.len()`, and `idx` is not written between that test and the block (a `while i < xs.len() { .. xs[i] ..; i += 1 }`)."""
+    if not (isinstance(idx, tuple) and len(idx) == 2 and idx[0] == "var"):
+        return False
+    dblocks = {d[1] for d in b.defs().get(idx[1], [])}
+    for bi in b.reachable_blocks():
+        be = b.bool_edges(bi)
+        if not be or be[0][0] != "binop" or be[0][1] != "Lt" or peel(be[0][2]) != idx or _len_of(be[0][3]) != coll or coll is None:
+            continue
+        if not b.edge_dominates(bi, be[1], site_bb):
+            continue
+        region = {x for x in b.reach(be[1], avoid_blocks=[site_bb]) if site_bb in b.reach(x, avoid_blocks=[bi])}
+        if not (dblocks & region):
+            return True
+    return False
+
+
 def auto_discharge(f, b, s):
     """Local idioms that make a site unreachable or non-panicking; returns a reason or None."""
     if s["kind"] == "call":
@@ -211,6 +238,8 @@ def auto_discharge(f, b, s):
                 i, n = cnd[2], cnd[3]
                 if const_int(n) is not None and const_int(i) is not None and const_int(i) < const_int(n):
                     return "constant index below the constant array length"
+                if _len_of(n) is not None and _guarded_by_index_test(b, s["bb"], peel(i), _len_of(n)):
+                    return "index behind the true edge of `i < len` of the same collection, not written in between"
                 if const_int(i) is not None and isinstance(n, tuple) and len(n) == 3 and n[0] == "unop" and n[1] == "PtrMetadata":
                     # element of `slice.windows(k)` / `chunks_exact(k)`: its length is k
                     w = peel(n[2])
@@ -238,6 +267,13 @@ def auto_discharge(f, b, s):
                     return "index or length of an in-memory collection + 1 cannot overflow usize"
                 if op == "AddWithOverflow" and all(is_call(peel(z), ["Vec::len", "slice::len", "HashMap::len", "str::len", "String::len", "HashSet::len", "BTreeMap::len", "BTreeSet::len", "VecDeque::len"]) for z in (x, y)):
                     return "sum of two in-memory collection lengths cannot overflow usize"
+                if op == "AddWithOverflow" and const_int(y) == 1 and isinstance(peel(x), tuple) and peel(x)[0] == "var":
+                    # `i += 1` behind `i < xs.len()`: i + 1 <= len, and lengths of in-memory collections are far below usize::MAX
+                    for bi_ in b.reachable_blocks():
+                        be_ = b.bool_edges(bi_)
+                        if be_ and be_[0][0] == "binop" and be_[0][1] == "Lt" and peel(be_[0][2]) == peel(x) and _len_of(be_[0][3]) is not None \
+                                and _guarded_by_index_test(b, s["bb"], peel(x), _len_of(be_[0][3])):
+                            return "increment of an index that is below the length of an in-memory collection"
                 if op == "AddWithOverflow":
                     LEN = ["Vec::len", "slice::len", "HashMap::len", "str::len", "String::len", "HashSet::len", "BTreeMap::len", "BTreeSet::len", "VecDeque::len"]
 
